@@ -9,6 +9,14 @@ CLAIMED = {
             "Static, all-paths: the full decision table of every workspace impl RetrySession is extracted from type-checked MIR and every Retry* site is shown to lie where is_idempotent is true or the error class is within the SAFE set; the interpreting loop is shown (reachability after cuts) to re-send only through a Retry* decision. Decides the structural clauses, not end-to-end frame counts.",
             "Trusts rustc MIR construction; SAFE set transcribed from the property text; user-supplied policies out of scope.",
             "DESIGN.md §3 C06"),
+    "C18": ("MIR who-writes census on the atomic + dataflow/dominance on the CAS loop and compute_next exits + call-graph provenance of the frame timestamp",
+            "Static, all-paths: `last` is written only by one compare_exchange whose operands are (value loaded this iteration, compute_next(that value)); next_timestamp returns only in the CAS-success region and returns the published value; compute_next returns the clock reading only in the `reading > last` region, else last+c. These shapes make the textbook CAS argument (pairwise distinct, per-thread increasing, any interleaving, any clock) applicable. The generator is shown to be consulted only as the or_else fallback of the statement's own timestamp.",
+            "Trusts rustc MIR, compare_exchange semantics; i64 overflow at last+1 and user-provided generators not covered.",
+            "DESIGN.md §3 C18"),
+    "C19": ("MIR dominance / cut rules on the pre-lowering coroutine of Receiver::recv, Sender::modify and the Drop impls; impl-table and type facts for SPSC",
+            "Static, schedule-independent: the code shapes that admit a lost wake-up, a lost last value or a duplicated value (inspect before enable, notify before flag, no re-take on the dropped edge, await reachable after a take that held a value, notified() hoisted out of the loop, weak orderings on the flags, Clone endpoints, slot reachable without the mutex) are each excluded on every path of merge_channel.rs. Liveness clauses are not decided.",
+            "Trusts rustc MIR and tokio::sync::Notify's enable()/notify_one() permit semantics.",
+            "DESIGN.md §3 C19"),
 }
 
 NOT_APPLICABLE = {
